@@ -4,6 +4,10 @@ import DepsDev.Ref.Pep508
 import DepsDev.Proofs.C16Name
 import DepsDev.Proofs.C16Dep
 import DepsDev.Proofs.C16Marker
+import DepsDev.Proofs.C16Req
+import DepsDev.Proofs.C16MarkerRender
+import DepsDev.Proofs.C16Fuel
+import DepsDev.Proofs.C16NoPanic
 
 /-!
 # Property C16 — Python requirement strings and environment markers follow PEP 508
@@ -132,6 +136,21 @@ theorem parseDependency_bare (wL wT : Pep508.Ws) (name : Bytes)
     parseDependency (wL.bytes ++ name ++ wT.bytes) = .ok { name := canonPackageName name } :=
   C16Dep.parseDependency_bare wL wT name hname hns
 
+/-- **Full statement and theorem for requirement strings.** For every well-formed
+requirement tree `r` (PEP 508 `name_req`: identifier, optional extras list, optional bare or
+parenthesised specifier list, optional marker) and every choice of optional blanks (the
+`Ws` fields of the tree: all of them, all lists of spaces and tabs), `ParseDependency` of
+the rendering returns: packaging's normalised name; the text of the extras list (identifiers
+with their separators, no surrounding blanks); the text of the specifier list (parentheses
+removed); the marker's text without surrounding blanks. -/
+def ParseDependency_render : Prop :=
+  ∀ r : Pep508.Requirement, r.wf = true →
+    parseDependency r.render =
+      .ok { name := Pep508.normalize r.name, extras := r.extrasText, constraint := r.specText,
+            environment := r.markerText trim }
+
+theorem parseDependency_render : ParseDependency_render := C16Req.parseDependency_render
+
 /-- Non-vacuity: a concrete requirement with every part present. -/
 example : parseDependency (b! " Foo_Bar [e1, E2] (>=1.0, <2) ; python_version >= '3.8' ") =
     .ok { name := b! "foo-bar", extras := b! "e1, E2", constraint := b! ">=1.0, <2",
@@ -156,6 +175,29 @@ theorem eval_or (a b : Marker) (extras : List Bytes) (x y : Bool)
     (ha : a.eval extras = .ok x) (hb : b.eval extras = .ok y) :
     (Marker.or a b).eval extras = .ok (x || y) := C16Marker.eval_or a b extras x y ha hb
 
+/-- **Parser theorem.** For every well-formed marker tree (grammar-stratified `and`/`or`/
+parentheses over comparisons of known variables and string literals, any operator), every
+layout and any trailing blanks, and whatever `util/semver` answers, `parseMarker` of the
+rendering is exactly the tree `toModel` describes: same shape (`and` binds tighter than `or`,
+both associate to the right, parentheses vanish), each comparison built by `mkExpr` from the
+two operands, errors and panics of the comparison checks surfacing in source order. -/
+theorem parseMarker_render (sv : Semver) (m : Pep508.Marker) (h : m.wf = true) (wT : Pep508.Ws) :
+    parseMarker sv (m.render ++ wT.bytes) = C16Marker.toModel sv m :=
+  C16MarkerRender.parseMarker_render sv m h wT
+
+/-- The model's parser is fuelled; for **every** input (well formed or not) and whatever
+`util/semver` answers, the fuel `parseMarker` supplies (`3 * len + 3`) does not run out, so
+the fuel is not an assumption of any statement here. -/
+theorem parseMarker_fuel_sufficient (sv : Semver) (raw : Bytes) :
+    parseMarkerOr sv (3 * raw.length + 3) raw ≠ .outOfFuel :=
+  C16Fuel.parseMarkerOr_fuel sv raw
+
+/-- `Eval`'s `default: panic("unknown or invalid op")` is unreachable: on any marker that
+`parseMarker` accepted (any input, any semver answers), `Eval` returns a Boolean. -/
+theorem eval_parsed_no_panic (sv : Semver) (raw : Bytes) (M : Marker) (extras : List Bytes)
+    (h : parseMarker sv raw = .ok M) : (M.eval extras).isPanic = false :=
+  C16NoPanic.eval_parsed_no_panic sv raw M extras h
+
 /-- Tree level: when every comparison of `m` has the same outcome in the library and in
 packaging (`LeavesAgree`: the C03 boundary plus the seven finding classes below), the
 parse-time checks followed by `Eval` equal packaging's evaluation, for at most one
@@ -166,6 +208,36 @@ theorem marker_tree_agrees (sv : Semver) (P : Pep508.Packaging) (m : Pep508.Mark
     (C16Marker.toModel sv m).bind (·.eval extras) = C16Marker.refOutcome (Pep508.evalMarker P m extras) := by
   rw [C16Marker.evalMarker_single P m extras hx]
   exact C16Marker.tree_eval_eq_ref sv P extras _ m hl
+
+/-- **Partial theorem for markers** (string level). Hypotheses: the marker is well formed;
+at most one extra is requested (negation: finding F-C16-extra-multi's class, and a gap: with
+several extras and a single extra literal the agreement rests on the harness oracle only);
+every comparison has the same outcome in the library and in packaging (`LeavesAgree`:
+negation = the leaf classes of findings F-C16-in, -pre-lhs, -eqeqeq-case, -legacy-rhs,
+-wild-ordered, -extra-op, or a disagreement of `util/semver` with PEP 440, which is C03's
+subject). Conclusion: a dependency guarded by the marker is kept by `getDependencies`'
+filter exactly when packaging evaluates the marker to true; errors coincide. -/
+theorem marker_agrees_partial (sv : Semver) (P : Pep508.Packaging) (m : Pep508.Marker) (extras : List Bytes)
+    (hwf : m.wf = true) (hx : extras.length ≤ 1)
+    (hl : C16Marker.LeavesAgree sv P extras (extras.headD []) m) :
+    MarkerAgrees sv P m extras := by
+  unfold MarkerAgrees evalMarker keepDependency
+  have hp := parseMarker_render sv m hwf []
+  simp only [Pep508.Ws.bytes, List.map_nil, List.append_nil] at hp
+  simp only []
+  rw [hp, ← marker_tree_agrees sv P m extras hx hl]
+  cases C16Marker.toModel sv m <;> rfl
+
+/-- The same at the property's observation point: the filter of `getDependencies`. -/
+theorem keepDependency_agrees_partial (sv : Semver) (P : Pep508.Packaging) (m : Pep508.Marker)
+    (extras : List Bytes) (hwf : m.wf = true) (hx : extras.length ≤ 1)
+    (hl : C16Marker.LeavesAgree sv P extras (extras.headD []) m) :
+    keepDependency sv (some m.render) extras = C16Marker.refOutcome (Pep508.evalMarker P m extras) :=
+  marker_agrees_partial sv P m extras hwf hx hl
+
+/-- A requirement without a marker is always kept. -/
+theorem keepDependency_no_marker (sv : Semver) (extras : List Bytes) :
+    keepDependency sv none extras = .ok true := rfl
 
 /-! ## 4. Refutations of the full marker statement (one witness per finding class)
 
@@ -193,13 +265,22 @@ theorem marker_in_refuted : ¬ MarkerAgrees svIn pNoSpecifier mIn [] := by
 example : evalMarker svIn mIn.render [] = .err := by decide
 example : Pep508.evalMarker pNoSpecifier mIn [] = some true := by decide
 
-/-- F-C16-pre-lhs: `'3.9.6rc1' < implementation_version`. semver: both are versions and
+/-- F-C16-pre-lhs: `'3.9.6rc1' < implementation_version` (value 3.9.6). semver: both are versions and
 `<3.9.6` matches `3.9.6rc1`; packaging: `Specifier("<3.9.6").contains("3.9.6rc1")` is False
 (a pre-release candidate is excluded unless the specifier names a pre-release). -/
 def svPre : Semver := { isVersion := fun _ => true, cmpLeaf := fun _ _ _ => .ok true }
 def pPre : Packaging := ⟨fun op rhs => if op == .lt && rhs == b! "3.9.6" then some (fun _ => false) else none⟩
 def mPre : Pep508.Marker := cmp1 (.lit false (b! "3.9.6rc1")) .lt (.var (b! "implementation_version"))
 theorem marker_pre_lhs_refuted : ¬ MarkerAgrees svPre pPre mPre [] := by
+  show ¬ (_ = _); decide
+
+/-- F-C16-post-lhs-ne: `'3.9.6.post1' != implementation_version` (value 3.9.6). semver: both
+are versions and the constraint `!=3.9.6` does **not** match `3.9.6.post1` (it is built as
+`<3.9.6 or >3.9.6`, and PEP 440's `>V` excludes `V.postN`); packaging: True. -/
+def svPost : Semver := { isVersion := fun _ => true, cmpLeaf := fun _ _ _ => .ok false }
+def pPost : Packaging := ⟨fun op rhs => if op == .ne && rhs == b! "3.9.6" then some (fun _ => true) else none⟩
+def mPost : Pep508.Marker := cmp1 (.lit false (b! "3.9.6.post1")) .ne (.var (b! "implementation_version"))
+theorem marker_post_lhs_ne_refuted : ¬ MarkerAgrees svPost pPost mPost [] := by
   show ¬ (_ = _); decide
 
 /-- F-C16-eqeqeq-case: `platform_system === 'linux'` (the value is "Linux"). Library: raw
@@ -255,6 +336,32 @@ example : MarkerAgrees svNoVersion pNoSpecifier
           (.cmp [false] (.var (b! "extra")) [false] .eq [] [false] (.lit false (b! "x")))) [b! "x"] := by
   show _ = _; decide
 
+/-- Non-vacuity of `marker_agrees_partial`: its hypotheses are satisfiable. -/
+example : MarkerAgrees svNoVersion pNoSpecifier
+    (.or (cmp1 (.var (b! "os_name")) .eq (.lit false (b! "nt"))) [false]
+         (.cmp [false] (.var (b! "sys_platform")) [] .in_ [] [false] (.lit true (b! "linux2")))) [] :=
+  marker_agrees_partial _ _ _ _ (by decide) (by decide)
+    (by refine ⟨?_, ?_⟩ <;> (show _ = _; decide))
+
 end refutations
 
 end DepsDev.Props.C16
+
+/- TIES (DESIGN 3.3): per theorem, the model definitions it is about and the Gen constants it uses.
+canonName_eq_ref, canonName_idempotent      : Pypi.canonPackageName/canonLoop              | op pname
+parseDependency_render/_segments/_bare/_no_panic : Pypi.parseDependency, parseAfterName, parseExtras,
+                                              parseConstraint, stripParens, parseEnvironment, trim,
+                                              indexWhere, slice                             | op dep508
+parseMarker_render, parseMarker_fuel_sufficient, eval_parsed_no_panic :
+                                              Pypi.parseMarker, parseMarkerOr/And/Expr, parseLeaf,
+                                              parseMarkerVar, parsePythonStr, parseMarkerOp, mkExpr,
+                                              Marker.eval; Gen.C16PypiEnv.envVars, opStrings,
+                                              markerOpsByLength                             | op marker
+marker_agrees_partial, keepDependency_agrees_partial : Pypi.evalMarker, keepDependency; parameters
+                                              Pypi.Semver (ver=/leaf= fields of the op line) and
+                                              Ref.Pep508.Packaging; Gen.C16PypiEnv.markers  | ops marker, resolve
+gen_*, envVars_*                            : Gen.C16PypiEnv.{opNames, opStrings, markerOpsByLength,
+                                              envVars, markers} (translator C16PypiEnv)
+marker_*_refuted                            : Pypi.evalMarker vs Ref.Pep508.evalMarker on the witnesses of
+                                              props/C16.known.json
+-/
